@@ -114,6 +114,7 @@ void set_cur_ctx(OpCtx *c);
 // Returns J_NONE or the jump code.
 int run_in_lib(OpCtx *c, void (*fn)(void *), void *arg, long step_budget);
 // caller threads bracket their life with these (scopes ThreadSanitizer to library execution)
+void process_reclaim();  // a simulated process ended: free its heap blocks, mappings, descriptors, streams
 void sim_thread_begin();
 void sim_thread_end();
 
